@@ -131,7 +131,10 @@ def build(case, sample_dim="time"):
         p = f["p"]
         coslat = bool(f.get("coslat", False))
         fshape, fdims = _layout(rng, p, f.get("nfd", 1), coslat or rng.random() < 0.2, names)
-        da = xu.make_da(M, fshape, fdims, sample_dim=sample_dim, name=f"field{i + 1}")
+        # every fourth case: the second field keeps time stamps of its own (a lagged pairing) that overlap the first
+        # field's only partly -- samples are paired by position, never by label
+        sc = np.arange(M.shape[0]) + M.shape[0] // 3 if (i == 1 and int(case.get("dseed", 0)) % 4 == 1) else None
+        da = xu.make_da(M, fshape, fdims, sample_dim=sample_dim, sample_coords=sc, name=f"field{i + 1}")
         w_cos = None
         if coslat:
             wl = oracle.coslat_weights(da.coords["lat"].values)
